@@ -293,6 +293,10 @@ def run(ctx):
     # ---------------------------------------------------------------- C03.ARGS
     from ..rules_common import check_call_arguments
     check_call_arguments(ctx, "C03.ARGS", "C03")
+    from ..rules_common import check_effect_tables
+    check_effect_tables(ctx, "C03")
+    from ..rules_common import check_presence_tests, ARG_SCOPE
+    check_presence_tests(ctx, "C03.PRESENCE", classes=ARG_SCOPE.get("C03", []))
 
 
 def check_weekday_table(ctx, add, rname):
